@@ -378,3 +378,417 @@ def gen(ctx):
     gen_apply(ctx, cases)
     gen_dyn(ctx, cases)
     return cases
+
+
+# ----------------------------------------------------------------------------- evaluation
+def _open(img):
+    from elftools.elf.elffile import ELFFile
+    return ELFFile(io.BytesIO(img))
+
+
+def _table_result(tab):
+    return [bool(tab.is_RELA()), tab.num_relocations(), [entry_items(r) for r in tab.iter_relocations()]]
+
+
+def _sec_desc(name, typ, off, size, link, entsize):
+    return [name.encode(), typ, off, size, link, entsize]
+
+
+class _Case:
+    pass
+
+
+def evaluate(ctx, cases):
+    drv = ctx.driver
+    b1 = Batch()
+    work = []
+    # ---------------- pass 1: encode records through the Coq spec
+    for kind, a in cases:
+        w = _Case()
+        w.kind, w.a = kind, a
+        if kind == 'table':
+            le, is64, em, rela, ents, gap, via, slack = a
+            mips64 = is64 and em == EM['MIPS']
+            w.h_enc = b1.add(['enc_table', le, is64, mips64, rela, ents])
+            w.h_wf = b1.add(['rents_wf', is64, mips64, rela, ents])
+            w.h_view = b1.add(['spec_view', is64, mips64, rela, ents])
+        elif kind == 'relr':
+            le, is64, ws, via, entsize = a
+            w.h_enc = b1.add(['enc_relr', le, is64, ws])
+            w.h_wf = b1.add(['relr_wf', is64, ws])
+            w.h_spec = b1.add(['relr_spec', is64, ws])
+        elif kind == 'apply':
+            em, le, is64, relocate, via, data, symvals, rsecs, gap = a
+            mips64 = is64 and em == EM['MIPS']
+            w.h_rs = [b1.add(['enc_table', le, is64, mips64, r[2], r[3]]) for r in rsecs]
+            w.h_rwf = [b1.add(['rents_wf', is64, mips64, r[2], r[3]]) for r in rsecs]
+            w.h_syms = [b1.add(['enc_sym', le, is64, 0, v]) for v in symvals]
+        elif kind == 'dyn':
+            le, is64, em, tables, quirk, via, order = a
+            mips64 = is64 and em == EM['MIPS']
+            w.h_tabs = []
+            for k, rela, items in tables:
+                if k == 'RELR':
+                    w.h_tabs.append((b1.add(['enc_relr', le, is64, items]), b1.add(['relr_wf', is64, items]),
+                                     b1.add(['relr_spec', is64, items])))
+                else:
+                    w.h_tabs.append((b1.add(['enc_table', le, is64, mips64, rela, items]),
+                                     b1.add(['rents_wf', is64, mips64, rela, items]),
+                                     b1.add(['spec_view', is64, mips64, rela, items])))
+        work.append(w)
+    b1.run(drv)
+
+    # ---------------- assemble images, pass 2 requests
+    b2 = Batch()
+    for w in work:
+        kind, a = w.kind, w.a
+        if kind == 'table':
+            le, is64, em, rela, ents, gap, via, slack = a
+            tbl = b1[w.h_enc]
+            name = ('.rela' if rela else '.rel') + '.foo'
+            styp = (4 if rela else 9) if via == 'section' else 1
+            secs = [dict(name='.foo', type=1, data=b'\x11' * 5),
+                    dict(name=name, type=styp, data=tbl + bytes((7 * i + 3) % 251 + 1 for i in range(slack)),
+                         link=0, info=1, entsize=entsize_of(is64, rela))]
+            w.img, w.offs = build_elf(le, is64, em, 1, secs, gap=gap)
+            w.size = len(tbl) + slack
+            w.h_model = b2.add(['model_table', le, is64, em, rela, w.img, w.offs[2], w.size])
+            w.h_num = b2.add(['model_num', le, is64, em, rela, w.size])
+        elif kind == 'relsec_entsize':
+            le, is64, em, rela, es = a
+            secs = [dict(name='.rela.foo' if rela else '.rel.foo', type=4 if rela else 9, data=b'\0' * 48, entsize=es)]
+            w.img, w.offs = build_elf(le, is64, em, 1, secs)
+            w.h_model = b2.add(['model_relsec_check', le, is64, em, rela, es])
+        elif kind == 'relr':
+            le, is64, ws, via, entsize = a
+            data = b1[w.h_enc]
+            if via == 'section':
+                secs = [dict(name='.relr.dyn', type=SHT['RELR'], data=data, entsize=entsize)]
+                w.img, w.offs = build_elf(le, is64, EM['X64'] if is64 else EM['X86'], 3, secs, gap=b'\x5a\x5b\x5c')
+                w.off = w.offs[1]
+            else:
+                w.img, w.off = data + b'\x77' * 3, 0
+            w.h_model = b2.add(['model_relr', le, is64, w.img, w.off, len(data), entsize])
+        elif kind == 'apply':
+            em, le, is64, relocate, via, data, symvals, rsecs, gap = a
+            symdata = b''.join(b1[h] for h in w.h_syms)
+            nr = len(rsecs)
+            symidx = 4 + nr
+            secs = [dict(name='.debug_info', type=1, data=data),
+                    dict(name='.debug_abbrev', type=1, data=b'\x01\x11\x00\x00\x00\x00'),
+                    dict(name='.debug_line', type=1, data=bytes((i * 37 + 11) % 256 for i in range(len(data))))]
+            for r, h in zip(rsecs, w.h_rs):
+                secs.append(dict(name=r[0], type=r[1], data=b1[h], link=symidx, info=r[4],
+                                 entsize=entsize_of(is64, r[2]) if r[1] in (4, 9) else 0))
+            secs.append(dict(name='.symtab', type=2, data=symdata, link=symidx + 1, info=1, entsize=24 if is64 else 16))
+            secs.append(dict(name='.strtab', type=3, data=b'\0'))
+            w.img, w.offs = build_elf(le, is64, em, 1, secs, gap=gap)
+            full = [dict(name='', type=0, data=b'')] + secs
+            descs = [_sec_desc(s['name'], s['type'], w.offs[i], len(s['data']), s.get('link', 0), s.get('entsize', 0))
+                     for i, s in enumerate(full)]
+            descs.append(_sec_desc('.shstrtab', 3, w.offs[-1], 0, 0, 0))
+            w.h_model = b2.add(['model_read_dwarf', le, is64, em, w.img, descs, 1, relocate])
+            # the relocation section the gABI designates: type REL/RELA with sh_info = index of .debug_info
+            target = [r for r in rsecs if r[1] in (4, 9) and r[4] == 1]
+            w.conventional = (len(target) <= 1 and
+                              all(r[0] == ('.rela' if r[1] == 4 else '.rel') + '.debug_info' and r[2] == (r[1] == 4)
+                                  for r in target) and
+                              all(b1[h] == 1 for h in w.h_rwf))
+            w.target = target[0] if len(target) == 1 else None
+            if w.target is not None and relocate:
+                w.h_spec = b2.add(['spec_apply', le, is64, em, w.target[2], symvals, data, w.target[3]])
+                w.h_wf = b2.add(['apply_wf', is64, em, w.target[2], symvals, data, w.target[3]])
+            else:
+                w.h_spec = w.h_wf = None
+        elif kind == 'dyn':
+            _assemble_dyn(w, b1, b2)
+    b2.run(drv)
+
+    # ---------------- run the implementation, compare
+    for w in work:
+        kind, a = w.kind, w.a
+        ctx.bump('kind', kind)
+        if kind == 'table':
+            _eval_table(ctx, w, b1, b2)
+        elif kind == 'relsec_entsize':
+            le, is64, em, rela, es = a
+            impl = impl_call(lambda: ok(1 if _open(w.img).get_section(1) is not None else 0))
+            m = b2[w.h_model]
+            ctx.record(kind, a, impl=impl, spec=m, model=m, in_domain=False, nontrivial=True)
+        elif kind == 'relr':
+            _eval_relr(ctx, w, b1, b2)
+        elif kind == 'apply':
+            _eval_apply(ctx, w, b1, b2)
+        elif kind == 'dyn':
+            _eval_dyn(ctx, w, b1, b2, drv)
+
+
+def _eval_table(ctx, w, b1, b2):
+    from elftools.elf.relocation import RelocationTable
+    le, is64, em, rela, ents, gap, via, slack = w.a
+    def run():
+        elf = _open(w.img)
+        if via == 'section':
+            tab = elf.get_section_by_name(('.rela' if rela else '.rel') + '.foo')
+            assert type(tab).__name__ == 'RelocationSection'
+        else:
+            tab = RelocationTable(elf, w.offs[2], w.size, rela)
+        res = _table_result(tab)
+        # random access agrees with iteration
+        for i in range(len(ents)):
+            assert entry_items(tab.get_relocation(i)) == res[2][i]
+        return ok(res)
+    impl = impl_call(run)
+    m = b2[w.h_model]
+    model = ok([int(rela), b2[w.h_num], m[1]]) if m[0] == 'ok' else m
+    spec = ok([int(rela), len(ents), b1[w.h_view]])
+    ctx.bump('entries', len(ents) if len(ents) < 8 else '8+')
+    ctx.bump('config', '%s%d%s%s' % ('LE' if le else 'BE', 64 if is64 else 32, '-mips' if em == 8 else '', '-rela' if rela else '-rel'))
+    ctx.record('table', w.a, impl=impl, spec=spec, model=model, in_domain=b1[w.h_wf] == 1,
+               nontrivial=len(ents) > 0)
+
+
+def _eval_relr(ctx, w, b1, b2):
+    from elftools.elf.relocation import RelrRelocationTable
+    le, is64, ws, via, entsize = w.a
+    def run():
+        if via == 'section':
+            sec = _open(w.img).get_section_by_name('.relr.dyn')
+            assert type(sec).__name__ == 'RelrRelocationSection'
+        else:
+            class FakeElf:      # what Dynamic.get_relocation_tables hands over: an elffile with stream + structs
+                pass
+            from elftools.elf.structs import ELFStructs
+            fe = FakeElf()
+            fe.stream = io.BytesIO(w.img)
+            fe.structs = ELFStructs(little_endian=le, elfclass=64 if is64 else 32)
+            fe.structs.create_basic_structs()
+            fe.structs.create_advanced_structs(None, None, None)
+            sec = RelrRelocationTable(fe, w.off, len(ws) * (8 if is64 else 4), entsize)
+        offs = [r['r_offset'] for r in sec.iter_relocations()]
+        assert sec.num_relocations() == len(offs)
+        assert [sec.get_relocation(i)['r_offset'] for i in range(len(offs))] == offs
+        return ok(offs)
+    impl = impl_call(run)
+    spec = b1[w.h_spec]
+    wf, noov = b1[w.h_wf]
+    std_ent = entsize == (8 if is64 else 4)
+    lead_bitmap = bool(ws) and ws[0] & 1 == 1
+    if not std_ent:
+        spec = b2[w.h_model]
+    ctx.bump('relr_words', len(ws) if len(ws) < 8 else '8+')
+    ctx.record('relr', w.a, impl=impl, spec=spec, model=b2[w.h_model],
+               in_domain=bool(wf and noov and std_ent and not lead_bitmap), nontrivial=len(ws) > 1,
+               key='relr-leading-bitmap' if lead_bitmap else None)
+
+
+def _eval_apply(ctx, w, b1, b2):
+    from elftools.elf.relocation import RelocationHandler
+    em, le, is64, relocate, via, data, symvals, rsecs, gap = w.a
+    def run():
+        elf = _open(w.img)
+        if via == 'dwarfinfo':
+            di = elf.get_dwarf_info(relocate_dwarf_sections=relocate)
+            assert di.debug_abbrev_sec.stream.getvalue() == b'\x01\x11\x00\x00\x00\x00'
+            return ok(di.debug_info_sec.stream.getvalue())
+        section = elf.get_section_by_name('.debug_info')
+        stream = io.BytesIO()
+        stream.write(section.data())
+        if relocate:
+            h = RelocationHandler(elf)
+            rs = h.find_relocations_for_section(section)
+            if rs is not None:
+                h.apply_section_relocations(stream, rs)
+        return ok(stream.getvalue())
+    impl = impl_call(run)
+    model = b2[w.h_model]
+    if w.h_spec is not None:
+        spec = b2[w.h_spec]
+        wf = b2[w.h_wf] == 1
+    else:
+        spec = ok(data)
+        wf = True
+    in_domain = bool(w.conventional and wf)
+    ents = w.target[3] if w.target else []
+    key = None
+    t_rela = bool(w.target and w.target[2])
+    if impl == ['err', 'KeyError'] and w.target and not t_rela and em in (183, 21, 22):
+        key = 'rel-flavour-keyerror'                      # REL entries on a RELA-only machine: KeyError('r_addend')
+    elif impl == ['err', 'KeyError'] and em == 8 and t_rela and not is64:
+        key = 'mips-n32-r_mips_64-keyerror'               # ELF32 MIPS RELA R_MIPS_64: KeyError('r_type2')
+    elif is_err(spec) or is_err(impl):
+        tag = (spec[1] if is_err(spec) else 'ok') + '/' + (impl[1] if is_err(impl) else 'ok')
+        key = 'apply-error-class-%s-em%d' % (tag, em)
+    elif impl != spec:
+        key = 'mips-rela-adds-inplace' if (em == 8 and t_rela) else 'apply-value-em%d-%s' % (em, 'rela' if t_rela else 'rel')
+    ctx.bump('machine', em)
+    ctx.bump('relocs', len(ents))
+    ctx.bump('apply_outcome', spec[1] if is_err(spec) else 'ok')
+    ctx.bump('relocate', int(relocate))
+    ctx.record('apply', w.a, impl=impl, spec=spec, model=model, in_domain=in_domain,
+               nontrivial=len(ents) > 0 or is_err(spec), key=key)
+
+
+# ----------------------------------------------------------------------------- dynamic tables
+DT = dict(NULL=0, PLTRELSZ=2, HASH=4, STRTAB=5, RELA=7, RELASZ=8, RELAENT=9, STRSZ=10, REL=17, RELSZ=18, RELENT=19,
+          PLTREL=20, DEBUG=21, JMPREL=23, RELRSZ=35, RELR=36, RELRENT=37)
+BASE_VADDR = 0x400000
+
+
+def _assemble_dyn(w, b1, b2):
+    """image: PT_LOAD over the whole file at BASE_VADDR (address = BASE_VADDR + file offset), .dynstr, the tables
+    as PROGBITS sections, .dynamic (SHT_DYNAMIC + PT_DYNAMIC).  The tags need the table offsets and the tags sit in
+    the image, so the image is laid out once with a placeholder to learn the offsets."""
+    import random
+    le, is64, em, tables, quirk, via, order = w.a
+    rng = random.Random(order)
+    wsz = 8 if is64 else 4
+    dynsz = 2 * wsz
+    tdata = [b1[h[0]] for h in w.h_tabs]
+
+    def layout(dyn_bytes):
+        secs = [dict(name='.dynstr', type=3, data=b'\0libx\0', flags=2)]
+        for (k, rela, items), d in zip(tables, tdata):
+            secs.append(dict(name='.t' + k.lower(), type=1, data=d, flags=2))
+        secs.append(dict(name='.dynamic', type=6, data=dyn_bytes, link=1, entsize=dynsz, flags=3))
+        nsec = len(secs)
+        segs = [(1, (0, 0), BASE_VADDR), (2, nsec, 0)]
+        return secs, segs
+
+    def tags_for(offs):
+        groups = []
+        for i, (k, rela, items) in enumerate(tables):
+            addr = BASE_VADDR + offs[2 + i]
+            size = len(tdata[i])
+            if k == 'REL':
+                g = [(DT['REL'], addr), (DT['RELSZ'], size), (DT['RELENT'], entsize_of(is64, False))]
+            elif k == 'RELA':
+                g = [(DT['RELA'], addr), (DT['RELASZ'], size), (DT['RELAENT'], entsize_of(is64, True))]
+            elif k == 'RELR':
+                g = [(DT['RELR'], addr), (DT['RELRSZ'], size), (DT['RELRENT'], wsz)]
+            else:
+                g = [(DT['JMPREL'], addr), (DT['PLTRELSZ'], size), (DT['PLTREL'], DT['RELA'] if rela else DT['REL'])]
+            groups.append(g)
+        tags = [t for g in groups for t in g] + [(DT['STRTAB'], BASE_VADDR + offs[1]), (DT['STRSZ'], 6), (DT['DEBUG'], 0)]
+        rng.shuffle(tags)
+        after = []
+        if quirk == 'after_null':       # tags after the terminator do not exist
+            after = [(DT['REL'], BASE_VADDR + 64), (DT['RELSZ'], 16), (DT['RELENT'], entsize_of(is64, False)),
+                     (DT['RELR'], BASE_VADDR + 64), (DT['RELRSZ'], wsz), (DT['RELRENT'], wsz)]
+        elif quirk == 'dup' and groups:  # a second pointer tag: the first one counts
+            g = rng.choice(groups)
+            tags.append((g[0][0], g[0][1] + 4 * wsz))
+        elif quirk == 'bad_ent' and groups:
+            g = rng.choice(groups)
+            tags = [(t, v + 1) if (t, v) == g[2] and t != DT['PLTREL'] else (t, v) for t, v in tags]
+        elif quirk == 'missing_sz' and groups:
+            g = rng.choice(groups)
+            tags = [(t, v) for t, v in tags if (t, v) != g[1]]
+        elif quirk == 'unmapped' and groups:
+            g = rng.choice(groups)
+            tags = [(t, 0x10) if (t, v) == g[0] else (t, v) for t, v in tags]
+        elif quirk == 'zero_ptr' and groups:
+            g = rng.choice(groups)
+            tags = [(t, 0) if (t, v) == g[0] else (t, v) for t, v in tags]
+        return tags + [(0, 0)] + after
+
+    ntags = 3 * len(tables) + 3 + 1 + 6 + 2
+    secs, segs = layout(b'\0' * (ntags * dynsz))
+    _, offs = build_elf(le, is64, em, 3, secs, segs, gap=b'\x99')
+    w.tags = tags_for(offs)
+    w.h_dyn = [None] * len(w.tags)
+    w.tables_offs = offs
+    w.layout = layout
+    w.ntags = ntags
+
+
+def _eval_dyn(ctx, w, b1, b2, drv):
+    from elftools.elf.dynamic import DynamicSegment, DynamicSection
+    le, is64, em, tables, quirk, via, order = w.a
+    wsz = 8 if is64 else 4
+    enc = drv.batch([['enc_dyn', le, is64, t, v] for t, v in w.tags])
+    dyn_bytes = b''.join(enc)
+    dyn_bytes += b'\0' * (w.ntags * 2 * wsz - len(dyn_bytes))
+    secs, segs = w.layout(dyn_bytes)
+    img, offs = build_elf(le, is64, em, 3, secs, segs, gap=b'\x99')
+    assert offs == w.tables_offs
+    # the PT_LOAD segment covers the whole file
+    img = bytearray(img)
+    full_load = phdr(le, is64, 1, 4, 0, BASE_VADDR, len(img), len(img))
+    eh = 64 if is64 else 52
+    phoff = struct.unpack_from(('<' if le else '>') + ('Q' if is64 else 'I'), img, 32 if is64 else 28)[0]
+    img[phoff:phoff + len(full_load)] = full_load
+    img = bytes(img)
+
+    def run():
+        elf = _open(img)
+        if via == 'segment':
+            dyn = [s for s in elf.iter_segments() if isinstance(s, DynamicSegment)][0]
+        else:
+            dyn = elf.get_section_by_name('.dynamic')
+            assert isinstance(dyn, DynamicSection)
+        out = []
+        for k, t in dyn.get_relocation_tables().items():
+            if k == 'RELR':
+                out.append([k, 'relr', [r['r_offset'] for r in t.iter_relocations()]])
+            else:
+                out.append([k] + _table_result(t))
+        return ok(out)
+    impl = impl_call(run)
+    # model: descriptors from the tag list, then the table models on the image
+    desc = drv.one(['model_dyn', le, is64, em, [[t, v] for t, v in w.tags], [[0, BASE_VADDR, len(img)]]])
+    if desc[0] == 'ok':
+        reqs = []
+        for d in desc[1]:
+            if d[0] == 'RELR':
+                reqs.append(['model_relr', le, is64, img, d[1] if d[1] != 'none' else 0, d[2], d[3]])
+            else:
+                reqs += [['model_table', le, is64, em, d[3], img, d[1] if d[1] != 'none' else 0, d[2]],
+                         ['model_num', le, is64, em, d[3], d[2]]]
+        ans = drv.batch(reqs)
+        model_out = []
+        i = 0
+        failed = None
+        for d in desc[1]:
+            if d[1] == 'none':
+                failed = ['err', 'TypeError']          # None + n * entry_size
+                if d[0] == 'RELR' and d[2] == 0:
+                    failed = None
+            if d[0] == 'RELR':
+                r = ans[i]; i += 1
+                if failed is None and r[0] != 'ok':
+                    failed = r
+                model_out.append([d[0], 'relr', r[1] if r[0] == 'ok' else []])
+            else:
+                r, n = ans[i], ans[i + 1]; i += 2
+                if d[1] == 'none' and n == 0:
+                    failed = None
+                    r = ['ok', []]
+                if failed is None and r[0] != 'ok':
+                    failed = r
+                model_out.append([d[0], d[3], n, r[1] if r[0] == 'ok' else []])
+        model = failed if failed is not None else ok(model_out)
+    else:
+        model = desc
+    # spec: every table announced by the tags, with exactly its entries
+    spec_out = []
+    wf = True
+    for (k, rela, items), h in zip(tables, w.h_tabs):
+        pass
+    order_ = {'REL': 0, 'RELA': 1, 'RELR': 2, 'JMPREL': 3}
+    for (k, rela, items), h in sorted(zip(tables, w.h_tabs), key=lambda p: order_[p[0][0]]):
+        if k == 'RELR':
+            wfw, noov = b1[h[1]]
+            sp = b1[h[2]]
+            wf = wf and wfw == 1 and noov == 1 and sp[0] == 'ok'
+            spec_out.append([k, 'relr', sp[1] if sp[0] == 'ok' else []])
+        else:
+            wf = wf and b1[h[1]] == 1
+            spec_out.append([k, int(rela), len(items), b1[h[2]]])
+    spec = ok(spec_out)
+    in_domain = wf and quirk in ('none', 'after_null', 'dup')
+    if quirk == 'dup':
+        in_domain = False     # a duplicated pointer tag: the gABI allows one of each; drift only
+    ctx.bump('dyn_tables', len(tables))
+    ctx.bump('dyn_quirk', quirk)
+    ctx.record('dyn', w.a, impl=impl, spec=spec, model=model, in_domain=bool(in_domain), nontrivial=len(tables) > 0)
